@@ -9,6 +9,13 @@ from .common import FIELD
 from .c01 import _single_return
 
 FLOOR = 12
+ANCHORS = [
+    'field.Field.norm',
+    'field.Field.norm.setter',
+    'field.Field.orientation',
+    'field.Field.__init__',
+    'field.Field.update_field_values',
+]   # functions whose code the property is anchored in (mutation analysis, evidence)
 
 
 def run(chk):
